@@ -117,6 +117,14 @@ def run_sequence(acc, case):
                             if names.count("DWR") < 1:
                                 acc.violation("no-watchdog-after-idle-timeout", "no DWR within %s s of idleness (watchdog %d s)" % (obs["elapsed"], wd), wit)
                                 return
+                            # "a watchdog request after the configured timeout": one per timeout of idleness (plus slack for the
+                            # boundaries of the observation window), not a stream of them
+                            allowed = 2 + int(obs["elapsed"] // wd)
+                            acc.counters["idle_periods_judged"] += 1
+                            if names.count("DWR") > allowed:
+                                acc.violation("watchdog-requests-flood-an-idle-connection", "%d DWRs within %s s of idleness (watchdog %d s; at most %d expected)" % (
+                                    names.count("DWR"), obs["elapsed"], wd, allowed), wit)
+                                return
                         elif need == "DPR":
                             if names.count("DPR") != 1:
                                 acc.violation("local-stop-sends-%d-dpr" % names.count("DPR"), "local stop emitted %s" % names, wit)
@@ -282,7 +290,7 @@ def main(tier, seed):
                            "round-robin scheduling: this property quantifies over histories, not schedules"],
                           t0, extra_cov={"states": len({c.split("|")[0] for c in cells}), "transitions": len(cells),
                                          "cells_exercised": cells, "exhaustive_depth": depth},
-                          exhaustive=True, require_counters=("events_applied", "hard_cells_judged", "h9_checked", "sequences_completed", "open_under_schedule", "real_loopback_ok", "events_landed_on_a_parked_state_machine"))
+                          exhaustive=True, require_counters=("events_applied", "hard_cells_judged", "h9_checked", "sequences_completed", "open_under_schedule", "real_loopback_ok", "events_landed_on_a_parked_state_machine", "idle_periods_judged"))
 
 
 def replay(w):
